@@ -288,3 +288,45 @@ func c19WsConcurrentWriters(r *Run) {
 		}
 	}
 }
+
+// c19WsLarge (scenario ws): bodies at and just above 1 MiB (the application has lifted the websocket
+// library's read limit on its connections, as c19NewWsPair does) are carried like any other envelope,
+// in both directions, and the connection survives them.
+func c19WsLarge(r *Run) {
+	p, err := c19NewWsPair()
+	if err != nil {
+		r.Count("ws.large.no_listener")
+		return
+	}
+	defer p.Close()
+	cw, sw := goat.NewGoatOverWebsocket(p.cli), goat.NewGoatOverWebsocket(p.srv)
+	rng := r.Rand("c19.ws.large")
+	for i, n := range []int{1<<20 - 4096, 1<<20 - 1, 1 << 20, 1<<20 + 4096, 3 << 20, 16} {
+		body := make([]byte, n)
+		rng.Read(body)
+		e := &Rpc{Id: uint64(900 + i), Header: &goatorepo.RequestHeader{Method: "/s/m", Source: "a", Destination: "b", Headers: []*goatorepo.KeyValue{{Key: "k", Value: "v"}}}, Body: &goatorepo.Body{Data: body}}
+		in := map[string]any{"body_bytes": n}
+		r.Progress("ws.large", in)
+		for dir, pair := range [][2]goat.RpcReadWriter{{cw, sw}, {sw, cw}} {
+			werr := make(chan error, 1)
+			go func() {
+				ctx, cancel := context.WithTimeout(context.Background(), 2*hangTimeout)
+				defer cancel()
+				werr <- pair[0].Write(ctx, e)
+			}()
+			ctx, cancel := context.WithTimeout(context.Background(), 2*hangTimeout)
+			got, err := pair[1].Read(ctx)
+			cancel()
+			if err != nil || !proto.Equal(got, e) {
+				r.Violate("ws.large", "ops", "an envelope with a large body written on one end of the websocket was not read equal on the other end", map[string]any{"body_bytes": n, "direction": dir}, fmt.Sprint(c19Brief(got), " ", err), c19Brief(e))
+				return
+			}
+			if err := <-werr; err != nil {
+				r.Violate("ws.large", "ops", "Write of a large envelope failed", in, err.Error(), nil)
+				return
+			}
+		}
+		r.Eval(fmt.Sprintf("ws.large/%d", n), true)
+		r.Count("ws.large")
+	}
+}
